@@ -475,7 +475,9 @@ pub fn run(seed: u64, thorough: bool, rep: &mut Report) {
                     let aa: BTreeSet<_> = fin.appts.keys().cloned().collect();
                     let ab: BTreeSet<_> = reference_final.appts.keys().cloned().collect();
                     if matches!(op, XOp::Poll { .. }) && (ka != kb || aa != ab) {
-                        let what = if matches!(op, XOp::Poll { fail: Some(_), .. }) { "restart_after_partial_poll_skips_blocks" } else { "diverges_from_uninterrupted_run" };
+                        let prev_poll = ops[..i].iter().rev().find(|o| matches!(o, XOp::Poll { .. }));
+                        let partial = matches!(op, XOp::Poll { fail: Some(_), .. }) || matches!(prev_poll, Some(XOp::Poll { fail: Some(_), .. }));
+                        let what = if partial { "restart_after_partial_poll_skips_blocks" } else { "diverges_from_uninterrupted_run" };
                         rep.fail("C03", what, &format!("after crash in op {i} ({op:?}) point {j} and catching up: trackers {ka:?} vs {kb:?}; appointments {aa:?} vs {ab:?}"));
                     }
                     drop(w);
